@@ -58,6 +58,7 @@ package fsnotify
 //@   ensures has(w.wd, fd) && w.wd[fd].wd == fd && w.wd[fd].name == path && w.wd[fd].linkName == linkPath && w.wd[fd].isDir == isDir   [C17]
 //@   ensures forall(k, int, k != fd ==> (has(w.wd, k) <==> has(old(w.wd), k)) && w.wd[k] == old(w.wd)[k])                        [C17]
 //@   ensures w.path == set(old(w.path), path, fd) && w.byUser == old(w.byUser) && w.seen == old(w.seen)
+//@   ensures has(w.byDir, filepath.Dir(path)) && has(w.byDir[filepath.Dir(path)], fd)                                          [C17] "the descriptor is filed under the directory its path lies in (filepath.Dir: . for a bare name): the key under which removing that directory looks its entries up, to close them"
 //@   ensures !held(watches.mu)
 
 //@ func (w *watches) addUserWatch(path string)
